@@ -4,9 +4,14 @@ import (
 	"fmt"
 	"path/filepath"
 	"strings"
+	"time"
 
 	"github.com/avfs/avfs"
 	"github.com/avfs/avfs/vfs/memfs"
+
+	// the toolchain's Windows path/filepath, retargeted to this host by lib/vcheck/winportgen.py (generated)
+	"verifharness/winfp"
+	winlite "verifharness/winfp/filepathlite"
 )
 
 func init() { commands["path"] = runPath }
@@ -59,7 +64,22 @@ func pathOne(osn, s string) string {
 			tok(avfs.FromSlash(v, s)), tok(avfs.ToSlash(v, s)), tok(avfs.VolumeName(v, s)), avfs.VolumeNameLen(v, s), tok(a))
 	})
 	if osn != "linux" {
-		return impl
+		// second segment: Go's own Windows path/filepath (package winfp).  Abs of Windows proper asks the
+		// system (GetFullPathName) and is not retargetable; the oracle for avfs.Abs(path, curDir) is the
+		// portable definition of path/filepath.unixAbs over the Windows functions: Clean if IsAbs, else Join.
+		win := guard(func() string {
+			d, f := winfp.Split(s)
+			a := ""
+			if winfp.IsAbs(s) {
+				a = winfp.Clean(s)
+			} else {
+				a = winfp.Join(cur, s)
+			}
+			return fmt.Sprintf("clean=%s split=%s,%s dir=%s base=%s isabs=%s from=%s to=%s vol=%s vnl=%d abs=%s",
+				tok(winfp.Clean(s)), tok(d), tok(f), tok(winfp.Dir(s)), tok(winfp.Base(s)), b01(winfp.IsAbs(s)),
+				tok(winfp.FromSlash(s)), tok(winfp.ToSlash(s)), tok(winfp.VolumeName(s)), winlite.VolumeNameLen(s), tok(a))
+		})
+		return impl + " || " + win
 	}
 	host := guard(func() string {
 		d, f := filepath.Split(s)
@@ -74,6 +94,49 @@ func pathOne(osn, s string) string {
 			tok(filepath.FromSlash(s)), tok(filepath.ToSlash(s)), tok(filepath.VolumeName(s)), len(filepath.VolumeName(s)), tok(a))
 	})
 	return impl + " || " + host
+}
+
+// Rel is the one lexical function with an unbounded loop, and Go 1.23.5's Windows filepath.Rel (and avfs' copy
+// of it) never returns on e.g. Rel(`\\a\b`, `\\a\b\`).  The oracle copy carries an exact iteration budget
+// (winfp.ErrRelLoop); avfs cannot be instrumented, so its Rel runs in a goroutine with a deadline - short when
+// the oracle has already reported the loop, long otherwise - and a call that misses it is shown as "loop"
+// (the goroutine is abandoned, it spins until the process ends; relLeaks bounds how many we accept).
+var relLeaks int
+
+const maxRelLeaks = 12
+
+func avfsRel(v *memfs.MemFS, a, c string, oracleLoops bool) string {
+	done := make(chan string, 1)
+	go func() {
+		done <- guard(func() string { return showRel(avfs.Rel(v, a, c)) })
+	}()
+	d := 20 * time.Second
+	if oracleLoops {
+		d = 300 * time.Millisecond
+	}
+	select {
+	case r := <-done:
+		return r
+	case <-time.After(d):
+		relLeaks++
+		if relLeaks > maxRelLeaks {
+			panic("avfs.Rel did not return on more than 12 inputs of this run; last: " + tok(a) + " " + tok(c))
+		}
+		return "loop"
+	}
+}
+
+func winRel(a, c string) (res string) {
+	defer func() {
+		if r := recover(); r != nil {
+			if r == winfp.ErrRelLoop {
+				res = "loop"
+			} else {
+				res = "PANIC"
+			}
+		}
+	}()
+	return showRel(winfp.Rel(a, c))
 }
 
 func showRel(r string, err error) string {
@@ -91,14 +154,24 @@ func showMatch(m bool, err error) string {
 
 func pathTwo(osn, a, c string) string {
 	v := fsOf(osn)
+	if osn != "linux" {
+		wrel := winRel(a, c)
+		win := guard(func() string {
+			m, merr := winfp.Match(a, c)
+			return fmt.Sprintf("join=%s join3=%s rel=%s match=%s", tok(winfp.Join(a, c)), tok(winfp.Join(c, a, c)), wrel, showMatch(m, merr))
+		})
+		irel := avfsRel(v, a, c, wrel == "loop")
+		impl := guard(func() string {
+			m, merr := avfs.Match(v, a, c)
+			return fmt.Sprintf("join=%s join3=%s rel=%s match=%s", tok(avfs.Join(v, a, c)), tok(avfs.Join(v, c, a, c)), irel, showMatch(m, merr))
+		})
+		return impl + " || " + win
+	}
 	impl := guard(func() string {
 		r, rerr := avfs.Rel(v, a, c)
 		m, merr := avfs.Match(v, a, c)
 		return fmt.Sprintf("join=%s join3=%s rel=%s match=%s", tok(avfs.Join(v, a, c)), tok(avfs.Join(v, c, a, c)), showRel(r, rerr), showMatch(m, merr))
 	})
-	if osn != "linux" {
-		return impl
-	}
 	host := guard(func() string {
 		r, rerr := filepath.Rel(a, c)
 		m, merr := filepath.Match(a, c)
@@ -203,6 +276,9 @@ func runPath(cfg config) {
 		o.count("kind:" + line[:strings.Index(line, " ")])
 		if strings.Contains(obs, "PANIC") {
 			o.count("outcome:panic")
+		}
+		if strings.Contains(obs, "rel=loop") {
+			o.count("outcome:rel-loop")
 		}
 		o.emit(line, obs, key)
 	}
